@@ -370,6 +370,8 @@ class IRGen:
                     rt["typ"], rtc = "Optional[{}]".format(s), "optional_" + s
             if self.chance(k.p_return_doc):
                 rt["doc"], rdoc = "the zq_return_type value which is computed", "plain"
+                if self.chance(k.p_long_doc):
+                    rt["doc"], rdoc = "the zq_return_type value which is computed from {}".format(self._words(r.randint(12, 20))), "long"
             if self.chance(k.p_return_default):
                 nn = self._u()
                 kind = r.choice(["paren_tuple", "code_call", "code_tuple", "code_name", "code_arith"])
